@@ -69,6 +69,35 @@ struct Plan {
     strict_only: bool,
 }
 
+/// A value handed down the tree under ONE name: every node's variable is computed from the
+/// same-named variable of its parent (read while the child's own is being evaluated).
+fn build_passed_down(rng: &mut Rng) -> Plan {
+    let st = |query: &str, stmts: Vec<GStmt>| Item::Stanza(GStanza { query: query.into(), pool: None, stmts, loc: Loc::default() });
+    let derived = |parent: &str, me: &str, list: bool| -> GExpr {
+        if list {
+            GExpr::List(vec![GExpr::scoped(GExpr::cap(parent), "zz_path"), GExpr::call("node-type", vec![GExpr::cap(me)])])
+        } else {
+            GExpr::call("format", vec![GExpr::str("{}/{}"), GExpr::scoped(GExpr::cap(parent), "zz_path"), GExpr::call("node-type", vec![GExpr::cap(me)])])
+        }
+    };
+    let list = rng.chance(1, 3);
+    let inherit = rng.chance(1, 2);
+    let mut items = Vec::new();
+    if inherit {
+        items.push(Item::Inherit("zz_path".into()));
+    }
+    items.push(st("(module) @m", vec![stmt(StmtKind::Let(GVar::s(GExpr::cap("m"), "zz_path"), GExpr::str("root")))]));
+    items.push(st("(module (_) @child) @m", vec![stmt(StmtKind::Let(GVar::s(GExpr::cap("child"), "zz_path"), derived("m", "child", list)))]));
+    // with `inherit`, the grandchildren are sometimes left to inherit their parent's value
+    if !inherit || rng.chance(1, 2) {
+        items.push(st("(module (_ (_) @grand) @child)", vec![stmt(StmtKind::Let(GVar::s(GExpr::cap("grand"), "zz_path"), derived("child", "grand", list)))]));
+    }
+    let reader = |cap: &str| vec![stmt(StmtKind::Node(GVar::u("n"))), stmt(StmtKind::AttrNode(GExpr::var("n"), vec![GAttr { name: "path".into(), value: Some(GExpr::scoped(GExpr::cap(cap), "zz_path")) }, GAttr { name: "of".into(), value: Some(GExpr::cap(cap)) }]))];
+    items.push(st("(module (_ (_) @g))", reader("g")));
+    items.push(st("(module (_) @c)", reader("c")));
+    Plan { file: GFile { items }, features: vec!["value_passed_down_under_one_name"], strict_only: false }
+}
+
 fn build(rng: &mut Rng) -> Plan {
     let mut items = Vec::new();
     let mut features = Vec::new();
@@ -330,8 +359,8 @@ impl Prop for C04 {
             Tier::Thorough => 50_000,
         }
     }
-    fn run_case(&self, _cfg: &RunCfg, _idx: usize, rng: &mut Rng, out: &mut Out) {
-        let mut plan = build(rng);
+    fn run_case(&self, _cfg: &RunCfg, idx: usize, rng: &mut Rng, out: &mut Out) {
+        let mut plan = if idx % 10 == 3 { build_passed_down(rng) } else { build(rng) };
         plan.file.number();
         let text = print_house(&mut plan.file);
         let source = if rng.chance(1, 2) { (*rng.pick(SOURCES)).to_string() } else { py::gen_any_source(rng, 10, 10) };
